@@ -68,6 +68,12 @@ def body_fixed(rnd, kind):
     if kind == "prod_fe":
         return [E(B(rnd.choice(["eq", "le"]), {"k": "prod", "l": "l"}, lit(rnd.choice([2, 4, 6, 9])))),
                 FE("l", "i", [E(B("gt", SUB("l", IX("i")), lit(0)))], it=False, idx=True)]
+    if kind == "fe_agg":
+        # an aggregate of the list INSIDE a foreach body over the same list
+        agg = rnd.choice(["sum", "sum", "prod"])
+        if agg == "sum":
+            return [FE("l", "i", [E(B(rnd.choice(["le", "lt"]), B("add", SUB("l", IX("i")), SUB("l", IX("i"))), {"k": "sum", "l": "l"}))], it=False, idx=True)]
+        return [FE("l", "i", [E(B("gt", SUB("l", IX("i")), lit(0))), E(B("le", B("mul", SUB("l", IX("i")), lit(2)), {"k": "prod", "l": "l"}))], it=False, idx=True)]
     if kind == "fe_toggle":
         return [E(B("le", F("a"), lit(3)))]      # (the foreach lives in block c9, toggled by the history)
     if kind == "uniq":
@@ -83,7 +89,7 @@ def body_fixed(rnd, kind):
     raise ValueError(kind)
 
 
-FIXED_KINDS = ["fe_it", "fe_idx", "fe_both", "fe_sorted", "fe_guard", "sum", "uniq", "uniq_mixed", "member", "index", "nl_member", "prod", "prod_fe", "fe_tbl", "fe_notidx", "fe_part", "idx_merge", "fe_toggle"]
+FIXED_KINDS = ["fe_it", "fe_idx", "fe_both", "fe_sorted", "fe_guard", "sum", "uniq", "uniq_mixed", "member", "index", "nl_member", "prod", "prod_fe", "fe_tbl", "fe_notidx", "fe_part", "idx_merge", "fe_toggle", "fe_agg"]
 
 
 def family_fixed(tier, seed, n=None):
